@@ -17,6 +17,7 @@ Check(e) ==
       ELSE IF e.extoutcome # e.inoutcome THEN "external_exit_code_differs_from_in_process"
       ELSE IF e.sigExt # e.sigIn THEN "external_evaluations_differ_from_in_process"
       ELSE IF e.childalive THEN "optimizer_process_left_running" ELSE "ok")
+  ELSE IF e.fault \notin {"kill", "childerror", "raise", "stop", "none"} THEN "unknown_fault_kind"
   ELSE IF e.hang THEN "run_hangs"
   ELSE IF e.childalive THEN "optimizer_process_left_running"
   ELSE IF e.fault = "kill" /\ e.outcome \in {"finished"} THEN "killed_process_reported_as_normal_completion"
